@@ -68,23 +68,25 @@ Definition parse_u64 (s : str) : option N :=
 (* <i64 as FromStr>::from_str *)
 Definition parse_i64 (s : str) : option Z :=
   match s with
-  | 45 :: r =>
-      match r with
-      | [] => None
-      | _ => match digits_val r 0 with
-             | Some v => if v <=? I64_MAX_N + 1 then Some (- Z.of_N v)%Z else None
-             | None => None
-             end
-      end
-  | _ =>
-      let body := strip_plus s in
-      match body with
-      | [] => None
-      | _ => match digits_val body 0 with
-             | Some v => if v <=? I64_MAX_N then Some (Z.of_N v) else None
-             | None => None
-             end
-      end
+  | [] => None
+  | c :: r =>
+      if c =? 45 then
+        match r with
+        | [] => None
+        | _ => match digits_val r 0 with
+               | Some v => if v <=? I64_MAX_N + 1 then Some (- Z.of_N v)%Z else None
+               | None => None
+               end
+        end
+      else
+        let body := strip_plus s in
+        match body with
+        | [] => None
+        | _ => match digits_val body 0 with
+               | Some v => if v <=? I64_MAX_N then Some (Z.of_N v) else None
+               | None => None
+               end
+        end
   end.
 
 (* ---------- Token accessors ---------- *)
